@@ -9,6 +9,19 @@ pub fn op_menu() -> Vec<&'static str> {
     vec!["set k v1", "set-safe k 0 s1", "remove k", "increment c", "create-db d2 tok2", "create-user bob bt", "set-permissions bob rw k*", "snapshot false t"]
 }
 
+/// does the command write this key?
+fn wrote_cmd(c: &str, key: &str) -> bool {
+    let mut p = c.split(' ');
+    let cmd = p.next().unwrap_or("");
+    let arg = p.next().unwrap_or("");
+    match cmd {
+        "set" | "set-safe" | "remove" | "increment" | "resolve" => arg == key,
+        "create-user" => key == format!("$$user_{}", arg),
+        "set-permissions" => key == format!("$$permission_${}", arg),
+        _ => false,
+    }
+}
+
 /// one finding per differing (database, key): clause + canonical kind (no concrete values)
 pub fn converged(w: &NetWorld, sc: &Script) -> Vec<(String, String)> {
     let mut out = vec![];
@@ -49,7 +62,18 @@ pub fn converged(w: &NetWorld, sc: &Script) -> Vec<(String, String)> {
                     let mut keys: std::collections::BTreeSet<&String> = a.keys().collect();
                     keys.extend(b.keys());
                     for k in keys {
-                        let origin = if wrote(i, k) { " [the secondary issued a write to it]" } else { "" };
+                        // who wrote the key in this script, and with which command: a value
+                        // difference is only a known finding for specific races
+                        let writers: Vec<String> = sc
+                            .ops
+                            .iter()
+                            .filter(|(n, _)| wrote(*n, k))
+                            .filter_map(|(n, c)| {
+                                let cmd = c.split(' ').next().unwrap_or("");
+                                if wrote_cmd(c, k) { Some(format!("{}:{}", if *n == p { "primary".to_string() } else { "secondary".to_string() }, cmd)) } else { None }
+                            })
+                            .collect();
+                        let origin = if wrote(i, k) { format!(" [the secondary issued a write to it; writers {}]", writers.join(" ")) } else { String::new() };
                         let kind = match (a.get(k), b.get(k)) {
                             (Some(x), Some(y)) if x == y => continue,
                             (Some(x), Some(y)) if x.0 == y.0 => format!("same value, secondary version {} the primary's by {}{}", if y.1 > x.1 { "ahead of" } else { "behind" }, (y.1 - x.1).abs(), origin),
